@@ -89,6 +89,10 @@ static int shape_coeffs(Run &r, int w, int h, int type, int bd, int32_t *coef) {
     }
     const int16_t *scan = av1_scan_orders[txs][type].scan;
     int cut = (int)r.pick(1, max_eob);
+    // triage aid: C07_NO_EOB_CUT=1 keeps every coefficient the quantiser step left non-zero (no additional end-of-block truncation);
+    // part of the case like C07_MILD (replay needs the same setting)
+    static const bool no_cut = getenv("C07_NO_EOB_CUT") && *getenv("C07_NO_EOB_CUT") == '1';
+    if (no_cut) cut = max_eob;
     for (int i = cut; i < max_eob; i++) coef[scan[i]] = 0;
     int eob = 0;
     for (int i = 0; i < cut; i++) if (coef[scan[i]]) eob = i + 1;
